@@ -4,6 +4,7 @@
 (* rightmost path, so every tree of <= MaxNodes nodes over the alphabet is reached exactly     *)
 (* once and every prefix of its construction is a state.                                       *)
 (*   Alphabet = "full":  HTML / no-namespace / SVG elements incl. void names, the legacy void  *)
+(*                       (one element carries id, xml:lang and lang un-namespaced)              *)
 (*                       name event-source, plain and foreign attributes, 3 texts, comment,    *)
 (*                       2 doctypes                                                            *)
 (*   Alphabet = "shape": div, br, event-source, 2 texts, comment, doctype (deeper bound)       *)
@@ -14,9 +15,12 @@ EXTENDS Walker, TLC
 CONSTANTS MaxNodes, Alphabet, Unmerged, VoidKids
 
 AttrId    == <<None, N_id, <<120>>>>                      \* id="x"
+\* two un-namespaced attributes whose names agree after the colon (they share a slot in minidom's namespace index)
+AttrXmlLang == <<None, N_xml \o <<58>> \o N_lang, <<101>>>>    \* xml:lang="e" on an HTML element (not adjusted)
+AttrLang  == <<None, N_lang, <<102>>>>                         \* lang="f"
 AttrXlink == <<NS_xlink, N_href, <<121>>>>                \* xlink:href="y" (adjusted foreign attribute)
 Elems == IF Alphabet = "full"
-         THEN {ElemNode(NS_html, N_div, <<>>, <<>>), ElemNode(NS_html, N_div, <<AttrId>>, <<>>),
+         THEN {ElemNode(NS_html, N_div, <<>>, <<>>), ElemNode(NS_html, N_div, <<AttrId, AttrXmlLang, AttrLang>>, <<>>),
                ElemNode(NS_svg, N_svg, <<AttrXlink, AttrId>>, <<>>), ElemNode(NS_html, N_br, <<>>, <<>>),
                ElemNode(None, N_br, <<AttrId>>, <<>>), ElemNode(NS_svg, N_br, <<>>, <<>>),
                ElemNode(NS_html, N_event_source, <<>>, <<>>)}
